@@ -14,6 +14,7 @@ func init() {
 	register(&Prop{ID: "C03", Run: runC03,
 		Technique: "static analysis: dominance guards + who-may-write on go/ssa (retry ranking argument), constant/value-flow of the dry flag, call-graph reachability",
 		Decided: []string{
+			"the end-of-run test the polling loop consults is one walk over all nodes that stops at a not-started or running node (C03.run-to-completion, shared with C02/C04; a helper that walks and then asks a second walker is reported)",
 			"in everything an executor's Run reaches, the calls that perform the step's effect (process start, HTTP request, remote command, container start, mail) are outside every loop, and no HTTP client is configured to re-send on its own (C03.executor-single-shot)",
 			"launch is gated on status==not-started, flipped to running by the loop first, and unique (C01.gate, C01.flip-first, C01.single-launch shared)",
 			"the gate's readiness verdict (\"runnable\") stays true across a dependency only in the licensed cells and is a sticky conjunction over all dependencies, so a step behind an unsatisfied dependency is never launched (C01.ready-table, C01.ready-all-deps shared)",
@@ -133,6 +134,7 @@ func c03Retry(e *Env, s *Sched) {
 
 	c03Handback(e, s, "C03.no-status-after-handback", true)
 	c03ExecutorSingleShot(e)
+	cRunToCompletion(e, s, "C03.run-to-completion") // a step handed back for its retry must still be seen by the end-of-run test
 }
 
 // c03Handback: once the worker has stored not-started (the hand-back of a retried
